@@ -266,6 +266,10 @@ def tests(work, jobs):
 SPEED = ["C17", "C11", "C10", "C12", "C01", "C07", "C20", "C13", "C06", "C05", "C14", "C04", "C19", "C03", "C18",
          "C09", "C08", "C02", "C16", "C15"]
 SLOW = {"C02", "C03", "C08", "C09", "C15", "C16", "C19"}
+REL2 = {"a816/parse/codegen.py": ["C09", "C08", "C04"], "a816/parse/nodes.py": ["C03", "C02"], "a816/symbols.py": ["C08", "C03", "C19"],
+        "a816/parse/parser_states.py": ["C09", "C16"], "a816/parse/scanner.py": ["C16", "C15"], "a816/parse/scanner_states.py": ["C16", "C09"],
+        "a816/program.py": ["C03", "C19"], "a816/cpu/mapping.py": ["C03", "C19"], "a816/parse/parser.py": ["C16"], "a816/parse/tokens.py": ["C16"],
+        "a816/parse/ast/expression.py": ["C09"], "a816/parse/ast/nodes.py": ["C09", "C08"]}
 FAST = ["C17", "C11", "C10", "C12", "C01", "C07", "C20", "C14"]
 REL = {
     "a816/writers.py": ["C11", "C12", "C13"],
@@ -312,7 +316,7 @@ def checks(work, jobs, wrk):
             rel = REL.get(m["file"], [])
             order = rel + [c for c in (SPEED if os.environ.get("ALL") else FAST) if c not in rel]
             if os.environ.get("PHASE") == "2":
-                order = [c for c in rel if c in SLOW]          # survivors of phase 1: the slow relevant checks
+                order = REL2.get(m["file"], [c for c in rel if c in SLOW][:2])  # survivors of phase 1: the slow relevant checks
             elif not os.environ.get("ALL"):
                 order = [c for c in order if c not in SLOW]    # phase 1: fast checks only
             env = dict(os.environ, A816_REPO=d, VERIF_OUT=os.path.join(d, ".verif-out"), VERIF_WORKERS=str(wrk))
